@@ -176,6 +176,12 @@ impl NamespacesTbl {
             r is Ok ==> final(self)@ == old(self)@.remove(key@),
             r is Err ==> final(self)@ == old(self)@,
     { unimplemented!() }
+
+    /// ReadableTableMetadata::is_empty
+    #[verifier::external_body]
+    pub fn is_empty(&self) -> (r: std::result::Result<bool, StorageError>)
+        ensures r is Ok ==> (r->Ok_0 <==> self@ =~= Map::<Seq<u8>, (u8, Seq<u8>)>::empty())
+    { unimplemented!() }
 }
 
 // ---- latest-per-author table ----
@@ -240,6 +246,12 @@ impl PolicyTbl {
         ensures
             r is Ok ==> final(self)@ == old(self)@.remove(key@),
             r is Err ==> final(self)@ == old(self)@,
+    { unimplemented!() }
+
+    /// ReadableTableMetadata::is_empty
+    #[verifier::external_body]
+    pub fn is_empty(&self) -> (r: std::result::Result<bool, StorageError>)
+        ensures r is Ok ==> (r->Ok_0 <==> self@ =~= Map::<Seq<u8>, Seq<u8>>::empty())
     { unimplemented!() }
 }
 
